@@ -408,7 +408,8 @@ def run_case(case, ctx):
     if has_cubic:
         ctx.label("cubic")
     for k, v in sorted(opts.items()):
-        ctx.label("%s=%s" % (k, v))
+        if k != "notdefGlyph":
+            ctx.label("%s=%s" % (k, v))
     ctx.nontrivial(has_cubic and any(g.get("components") for g in spec["glyphs"]))
 
 
